@@ -6,7 +6,7 @@ from __future__ import annotations
 import itertools as it
 
 from vlib.explore import Violation
-from vlib.server import ELEMENTS, Rig, element
+from vlib.server import ELEMENTS, EXC_TYPES, Rig, element
 from vlib.wire import KINDS, Wire, build, codes_of, obj, wf_response_document
 
 PROP = 'C01'
@@ -73,6 +73,8 @@ def obligations(tier):
         for kj, ki, km, kp, extra in prod:
             obs.append({'h': 'object', 'k': [kj, ki, km, kp], 'extra': extra, 'disp': d,
                         'pd': 'int' if (kp in ('dict1', 'list1')) else 'absent'})
+        for exc, shape in it.product(EXC_TYPES, ('single', 'notif', 'batch')):
+            obs.append({'h': 'excs', 'exc': exc, 'shape': shape, 'disp': d})
         maxlen = 2 if tier == 'quick' else 3
         for n in range(0, maxlen + 1):
             for combo in it.product(ELEMENTS, repeat=n):
@@ -181,6 +183,28 @@ def h_object(ob):
                   params=build(env, kp, 'params'))
         if ob.get('extra'):
             doc['x-extra'] = env.int('extra')
+        out = _dispatch(rig, wire.encode(doc))
+        env.reached()
+        r = check_c01(out, wire)
+        return [r[1], len(rig.log)] if r else [None, len(rig.log)]
+
+    return run
+
+
+def h_excs(ob):
+    """The addressed method raises an arbitrary exception of each kind (built-ins, a custom class, the library's own
+    validators.ValidationError / json.JSONDecodeError raised by the BODY): never out of dispatch, always a well-formed reply."""
+    def run(env):
+        wire = Wire(env)
+        rig = Rig(env, ob['disp'], wire=wire, exc=ob['exc'])
+        boom = {'jsonrpc': '2.0', 'id': env.int('id0'), 'method': 'boom'}
+        if ob['shape'] == 'single':
+            doc = boom
+        elif ob['shape'] == 'notif':
+            doc = {'jsonrpc': '2.0', 'method': 'boom'}
+        else:
+            doc = [boom, {'jsonrpc': '2.0', 'id': env.int('id1'), 'method': 'echo', 'params': [1]}]
+            env.assume(doc[0]['id'] != doc[1]['id'])
         out = _dispatch(rig, wire.encode(doc))
         env.reached()
         r = check_c01(out, wire)
